@@ -160,7 +160,7 @@ def pipeline(tier):
             pool = sorted(paths) + ["u"]
             c["names"] = [rnd.choice(pool) + ("" if k == 0 else "-%d" % k) for k in range(len(roots))]
         cases.append(c)
-        if i < (60 if quick else 400):
+        if i < (60 if quick else 180):
             design.append(tla_universe(req, roots))
     for i in range(250 if quick else 4000):
         req, paths = rich_universe(rnd)
@@ -171,7 +171,7 @@ def pipeline(tier):
         if i % 2:
             c["host"] = "github"      # one repository of a well-known hosting service holding all projects
         cases.append(c)
-        if i < (40 if quick else 300):
+        if i < (40 if quick else 120):
             design.append(tla_universe(req, roots))
     # the history of the documentation of 'get': a branch ahead of the last tag, then @patch
     req = {"p/120": [], "p/125": [], "q/100": ["p/120"]}
@@ -182,7 +182,7 @@ def pipeline(tier):
                           {"kind": "get", "path": "p", "q": {"kind": "ref", "n": 120}, "from": 1}]})
     body = "---- MODULE MCMvsGen ----\nEXTENDS MVS\nMCU == {\n  " + ",\n  ".join(design) + "\n}\n====\n"
     cfg = "SPECIFICATION Spec\nCONSTANT Universes <- MCU\nINVARIANT OrderIndependent\nPROPERTY Terminates\n"
-    rc, out, _ = vlib.tlc(SPEC, "MCMvsGen", cfg="MCMvsGen.cfg", workers=16, timeout=2400, heap="8g",
+    rc, out, _ = vlib.tlc(SPEC, "MCMvsGen", cfg="MCMvsGen.cfg", workers=16, timeout=3000, heap="8g",
                           files={"MCMvsGen.tla": body, "MCMvsGen.cfg": cfg})
     gen, dist = vlib.tlc_stats(out)
     res["design"] = {"ok": "No error has been found" in out, "distinct": dist, "generated": gen, "universes": len(design), "errors": vlib.tlc_error(out)[:3]}
